@@ -1,6 +1,7 @@
 #!/usr/bin/env python3
 """
-Self-test of the signature-derived replay entries of the comparison functions (vlib/xsearch.py: cmp_auto_entries;
+Self-test of the replay entries added in session 4 (Parser methods, BytesPub group — translator/replay_map.py) and of the
+signature-derived replay entries of the comparison functions (vlib/xsearch.py: cmp_auto_entries;
 groups Cmp2 … Cmp7).  Like notes/selftest_probe_replays.py: the search replays only inputs on which the regenerated and
 the committed Lean definitions differ, so on the unchanged tree these entries never run.  This script feeds every
 entry synthetic "counterexamples" (Lean reprs) and runs the replay program against the konst of KV_REPO (default
@@ -73,6 +74,24 @@ def main():
             args = [blist() if k in ("bytes", "bytes_mut") else str(rnd.choice([0, 1, 2, 4, 5, 2**64 - 1])) for k in ent[0]]
             cex.append({"fn": name, "args": args, "new": "?", "old": "?"})
     auto = dict(auto, **extra)
+    # the Parser-method entries: a parser as Parser::with_start_offset builds it, patterns and remainders from a small
+    # alphabet so that matches, misses, multi-byte characters, whitespace, digits and bool words all occur
+    pent = {k: v for k, v in m.REPLAY.items() if k.startswith("Parser.") and v[0] and v[0][0] == "parser"}
+    PIECES = ["a", "b", "ab", ",", " ", "\t", "é", "→", "12", "7", "-", "-3", "255", "256", "true", "false", "tru", "x", "99999999999999999999", "\u2003"]
+
+    def ustr(k=None):
+        t = "".join(rnd.choice(PIECES) for _ in range(rnd.choice([0, 1, 2, 3, 4, 6]) if k is None else k))
+        return "[" + ", ".join(str(b) for b in t.encode()) + "]"
+
+    def parser():
+        off = rnd.choice([0, 0, 1, 7, 1000, 4294967000])
+        return ("{ parse_direction := Extracted.ParseDirection.FromStart, yielded_last_split := false, start_offset := "
+                f"{off}, str := {ustr()} }}")
+    for name, ent in sorted(pent.items()):
+        for j in range(n * 3):
+            args = [parser() if k == "parser" else ustr(rnd.choice([0, 1, 1, 2])) if k == "str" else str(rnd.choice([0, 1, 2, 3, 5, 100, 2**64 - 1])) for k in ent[0]]
+            cex.append({"fn": name, "args": args, "new": "?", "old": "?"})
+    auto = dict(auto, **pent)
     rep = xsearch.replay_on_implementation(cex, os.path.join(core.BUILD, "selftest_cmp_replays"))
     if rep and "error" in rep[0]:
         print(rep[0]["error"]); sys.exit(2)
